@@ -531,9 +531,15 @@ def judge(ctx: Ctx, prefix: str, results: list[dict], name: str, strict: bool = 
         if r.get("rec"):
             it = r["rec"]["iters"]
             where = ":" + (r.get("kind") or "?") + ("@1" if it == 1 else "@>1")
+        if prefix == "kexp" and "accurate" in clause and r.get("atom"):
+            # how far beyond the budget: the Expokit estimate is known to under-report marginally for large dt*|H|
+            where += ":marginal" if r["atom"]["ratio"] <= 3.0 else ":gross"
         key = f"{prefix}:{clause[4:]}{where}" + (f":{r['exc']}" if r.get("exc") and "raise" in clause else "")
         nviol += 1
-        ctx.violation(key, f"{name}: real execution ({cls}, dim {r.get('dim')}) rejected by KrylovTrace at event {v[1]}: {clause}",
+        extra = ""
+        if r.get("atom") and r["atom"].get("ratio") is not None:
+            extra = f"; error {r['atom']['err']:.3g} = {r['atom']['ratio']:.3g} x budget"
+        ctx.violation(key, f"{name}: real execution ({cls}, dim {r.get('dim')}) rejected by KrylovTrace at event {v[1]}: {clause}{extra}",
                       {"spec": r["spec"], "record": r.get("rec"), "exception": r.get("exc"), "atom": r.get("atom"),
                        "op_calls": r.get("nops"), "how": f"./check {ctx.pid} --replay <this file>"})
     ndrift = 0
